@@ -34,6 +34,41 @@ def op_json(op):
     return json.loads(json.dumps(op))
 
 
+# minimised histories of earlier misses; they run first on every run, compared with the model and judged by the oracle
+CORPUS = {
+    'C09': [
+        # a descendant with a SMALLER id than its parent (tree inverted by un-parenting and re-parenting), then the subtree moved
+        [('rp_create', 39, 1, 1, None), ('rp_create', 39, 2, 2, 1), ('rp_create', 39, 3, 3, 2), ('rp_create', 39, 4, 4, 3),
+         ('rp_create', 39, 5, 5, None), ('rp_update', 39, 3, 3, None), ('rp_update', 39, 2, 2, 4), ('rp_update', 39, 3, 3, 5),
+         ('rp_update', 39, 3, 3, 2), ('rp_update', 39, 4, 4, 1), ('rp_update', 39, 5, 5, 2), ('rp_delete', 2), ('rp_update', 39, 3, 3, None)],
+        # five levels, un-parent the middle, hang the upper part under the lowest leaf, move it all under a second root
+        [('rp_create', 39, 1, 1, None), ('rp_create', 39, 2, 2, 1), ('rp_create', 39, 3, 3, 2), ('rp_create', 39, 4, 4, 3),
+         ('rp_create', 39, 5, 5, 4), ('rp_update', 39, 4, 4, None), ('rp_update', 39, 3, 3, 5), ('rp_update', 39, 4, 4, 1),
+         ('rp_update', 39, 4, 4, 3), ('rp_update', 39, 1, 1, 3)],
+    ],
+}
+
+
+def run_corpus(pid, stats, first_hits):
+    oracle = oracles.ORACLES[pid]
+    cases = []
+    for i, op_list in enumerate(CORPUS.get(pid, [])):
+        hits = []
+
+        def on_step(op, r, obs, before, after, hits=hits):
+            stats['evaluations'] += 1
+            stats['status'][obs[0]] += 1
+            stats['ops'][op[0]] += 1
+            msgs = oracle(op, obs, before, after)
+            if msgs:
+                hits.append(msgs)
+        case = hist.run_ops(op_list, on_step)
+        if hits:
+            first_hits.append((-1 - i, case, hits[0]))
+        cases.append(case)
+    return cases
+
+
 def run_stream(pid, n_hist, n_ops, base_seed, profile, stats, first_hits, stop_after=3):
     """Run histories on the implementation, evaluating the property's oracle on every step."""
     oracle = oracles.ORACLES[pid]
@@ -144,7 +179,7 @@ def run(pid, tier, out):
     stats = {'evaluations': 0, 'status': collections.Counter(), 'ops': collections.Counter(), 'distinct': set()}
     hits = []
     n_hist, n_ops = BUDGET[tier]
-    cases = run_stream(pid, n_hist, n_ops, seed, PROFILE[pid], stats, hits)
+    cases = run_corpus(pid, stats, hits) + run_stream(pid, n_hist, n_ops, seed, PROFILE[pid], stats, hits)
     disagreements = []
     model_ok = all(common.vo_fresh(d) for d in MODEL)
     corr_error = None
